@@ -77,7 +77,7 @@ static int match_case(char *s, char *r, int icase)
 /* return zero if an occurrence is found */
 int rstr_find(struct rstr *rs, char *s, int n, int *grps, int flg)
 {
-	int len;
+	int len, i;
 	char *beg, *end;
 	char *r;
 	if (rs->rs)
@@ -103,6 +103,10 @@ int rstr_find(struct rstr *rs, char *s, int n, int *grps, int flg)
 			if (n >= 1) {
 				grps[0] = r - s;
 				grps[1] = r - s + len;
+			}
+			for (i = 1; i < n; i++) {
+				grps[i * 2 + 0] = -1;
+				grps[i * 2 + 1] = -1;
 			}
 			return 0;
 		}
